@@ -342,6 +342,14 @@ func (svr *Server) Close() error {
 	copy(svcs, svr.svcs)
 	svr.mu.Unlock()
 
+	// End every outgoing ring before the first stop() waits for goroutines: a processor
+	// parked in the full outgoing ring of a connection further down the list (a client
+	// that has stopped reading) would keep that stop(), and so Close, waiting for as long
+	// as that client stays connected.
+	for _, svc := range svcs {
+		svc.out.Close()
+	}
+
 	for _, svc := range svcs {
 		log.Tracef("Stopping service: %d", svc.id)
 		svc.stop()
